@@ -51,7 +51,7 @@ type Series struct {
 // Inject describes one fault: act at the K-th storage callback (1-based).
 type Inject struct {
 	K      int64
-	Kind   string // "err" | "errwrap" (like err, the error also is context.DeadlineExceeded) | "errdown" (every callback from the K-th on fails: the storage went down) | "panic" | "cancel" | "block"
+	Kind   string // "err" | "errwrap" (like err, the error also is context.DeadlineExceeded) | "errdown" (every callback from the K-th on fails: the storage went down) | "panic" | "cancelpanic" (the context is cancelled, then the callback panics) | "cancel" | "block"
 	Cancel context.CancelFunc
 	Fired  int32
 	At     string // kind of the callback at which it fired
@@ -160,6 +160,11 @@ func (s *Store) tick(ctx context.Context, kind string, canErr bool) bool {
 	switch inj.Kind {
 	case "panic":
 		panic(InjectedPanic{Msg: "vstore: injected runtime panic at " + kind})
+	case "cancelpanic":
+		// the query is cancelled, and the callback that was running trips over what the cancellation tore down
+		inj.Cancel()
+		time.Sleep(200 * time.Microsecond)
+		panic(InjectedPanic{Msg: "vstore: injected runtime panic after the cancellation at " + kind})
 	case "cancel":
 		inj.Cancel()
 	case "block":
